@@ -28,6 +28,8 @@ type Out struct {
 	samples []string
 	fails   int
 	failKeys map[string]int
+	keepHist bool     // engines that attach the op lines of the current history to an oracle failure
+	hist     []string // state-changing op lines since the last `reset`
 }
 
 func NewOut(dir string) *Out {
@@ -52,6 +54,17 @@ func (o *Out) Emit(op string, obs string, nontrivial bool) {
 	o.impl.WriteString(obs)
 	o.impl.WriteByte('\n')
 	o.n++
+	if o.keepHist {
+		if f := strings.Fields(op); len(f) >= 2 {
+			switch f[1] {
+			case "reset":
+				o.hist = append(o.hist[:0], op)
+			case "dump", "fdump", "idump", "est", "nextid":
+			default:
+				o.hist = append(o.hist, op+" => "+strings.SplitN(obs, " ", 2)[0])
+			}
+		}
+	}
 	if nontrivial {
 		o.distinct[op] = struct{}{}
 	}
